@@ -1,7 +1,7 @@
 (** C16 — scanning restores and repairs the wallet to the chain's truth, idempotently.
     Statements only (proofs: theories/ScanProofs.v). Which chain outputs belong to the seed
     (range-proof rewind) is an oracle: the list [chain] of the seed's outputs in the UTXO set. *)
-From GW Require Import Scan ScanProofs ScanRepairProofs LedgerProofs.
+From GW Require Import Scan ScanProofs ScanRepairProofs LedgerProofs LedgerX LedgerXProofs.
 
 (** The PMMR paging loop of collect_chain_outputs, for EVERY batch size >= 1 the node may use
     and every start index: it terminates within one call per position and returns exactly the
@@ -72,6 +72,14 @@ Theorem C16_repair_converges : forall w chain,
   /\ scan_repair w' chain false = w'.
 Proof. exact scan_repairs_any_wallet. Qed.
 Print Assumptions C16_repair_converges.
+
+(** The premise of the convergence theorem holds in every state reachable through any history
+    of wallet operations that also loses and restores the wallet (a new database, then a scan),
+    scans it (with or without dropping pending transactions) and runs the kernel-confirmation
+    step of update_wallet_state. *)
+Theorem C16_table_wellformed_in_every_reachable_state : forall ops, WF (xrun empty_wallet ops).
+Proof. exact xwf_reachable. Qed.
+Print Assumptions C16_table_wellformed_in_every_reachable_state.
 
 (** non-vacuity: paging 7 positions (leaves at 2, 3, 5, 7) with batches of 1, 2 and 1000;
     restoring two accounts' outputs that appear on chain out of derivation order. *)
